@@ -117,9 +117,10 @@ CLAIMS = {
         "text": "Static decision of the structural clauses of buffer_geometry: negative buffers (only) rejected first; the three closed forms are "
                 "canonically the widened, clamped interval/box built by validating constructors; exactly those three types take the closed "
                 "form; buffers forwarded uncrossed at all four delegations; the shapely path scales/unscales by the same guarded factor "
-                "around a unit buffer, clips to [0, max_time + c] x [0, MAX_FREQUENCY] and re-validates. Containment/monotonicity on the "
-                "shapely path are numerical and not decided.",
-        "design_ref": "DESIGN.md section 3, C11 (R11.1-R11.6)",
+                "around a unit buffer, clips to [0, max_time + c] x [0, MAX_FREQUENCY] and re-validates; the constant that scales a "
+                "zero-buffer axis keeps the unit buffer representable in doubles over the whole validated frequency range (magnitude rule). "
+                "Containment/monotonicity on the shapely path are otherwise numerical and not decided.",
+        "design_ref": "DESIGN.md section 3, C11 (R11.1-R11.6); R11.7 in section 8.9",
         "note": NOTE_COMMON,
         "technique": "canonical-term comparison of closed forms; keyword-pairing (call binder); lambda-summary symmetry; guard evaluation on interval endpoints",
     },
